@@ -11,7 +11,7 @@ for id in $ids; do
   ( cd $WT && git checkout -q -- . && git clean -fdq
     if ! git apply $S/patch.diff; then echo "$id APPLY-FAILED" | tee $S/confirm.txt; continue; fi
     PYTHONPATH=$WT /venv/bin/python $S/demo.py > /dev/null 2>&1; d1=$?
-    py=$(PYTHONPATH=$WT /venv/bin/python -m pytest -q -n 8 -p no:cacheprovider --timeout=900 tests 2>&1 | tail -1)
+    py=$(PYTHONPATH=$WT /venv/bin/python -m pytest -q -n ${NPROC:-8} -p no:cacheprovider --timeout=900 tests 2>&1 | tail -1)
     git checkout -q -- . ; git clean -fdq
     PYTHONPATH=$WT /venv/bin/python $S/demo.py > /dev/null 2>&1; d0=$?
     echo "$id head=$(git rev-parse --short HEAD) demo_with_patch_rc=$d1 demo_without_rc=$d0 suite_with_patch: $py" | tee $S/confirm.txt )
